@@ -19,7 +19,7 @@ REWRITES = ('none', 'reflect', 'replay', 'swapid', 'method', 'flip')
 def cfg(sign=True, cred_i=True, cred_r=True, dump=False):
     b = lambda x: 'TRUE' if x else 'FALSE'
     s = (f'SPECIFICATION Spec\nCONSTANTS\n SignInitMsg = {b(sign)}\n CredIOk = {b(cred_i)}\n CredROk = {b(cred_r)}\n'
-         ' Msg34Rewrites = {"none", "reflect", "replay", "swapid", "method", "flip"}\n')
+         ' Msg34Rewrites = {"none", "reflect", "replay", "swapid", "method", "flip", "empty", "prefix", "extend"}\n')
     if not dump:
         s += 'INVARIANT Agreement\nINVARIANT ResponderAgreement\nINVARIANT InitiatorAgreement\nINVARIANT NoInstallWithoutAuth\nINVARIANT NoKeyCompromise\n'
     else:
@@ -148,6 +148,12 @@ class Mitm:
                     self.captured_auth_i = dict(p)
                 if rw == 'flip':
                     p['data'] = p['data'][:-1] + bytes([p['data'][-1] ^ 1])
+                elif rw == 'empty':                 # authentication data cut to zero octets / to a proper prefix / extended
+                    p['data'] = b''
+                elif rw == 'prefix':
+                    p['data'] = p['data'][:len(p['data']) // 2]
+                elif rw == 'extend':
+                    p['data'] = p['data'] + b'\0'
                 elif rw == 'method':
                     p['method'] = 1 if p['method'] == 2 else 2
                 elif rw == 'replay':
@@ -246,8 +252,14 @@ def run(tier, replay=None):
             acts = [g.edges[i][1] for i in p]
             return sum(len(a.get('s', [])) + (a.get('chosen', 'keep') != 'keep') + (a.get('rw', 'none') != 'none') for a in acts)
         if tier == 'quick':
-            few = [p for p in paths if changes(p) <= 1]            # the unmodified exchange and every single rewrite: always
-            rest = [p for p in paths if changes(p) > 1]
+            def dh_mitm_single(p):
+                # the full Diffie-Hellman man in the middle (both KE values substituted, nothing else) with at most one AUTH/ID rewrite
+                acts = [g.edges[i][1] for i in p]
+                subs = [tuple(sorted(a.get('s', []))) for a in acts if a['a'] in ('Msg1', 'Msg2')]
+                return (subs[:2] == [('kei',), ('ker',)] and all(a.get('chosen', 'keep') == 'keep' for a in acts)
+                        and sum(a.get('rw', 'none') != 'none' for a in acts) <= 1)
+            few = [p for p in paths if changes(p) <= 1 or dh_mitm_single(p)]   # the unmodified exchange, every single rewrite, every rewrite by the DH man in the middle: always
+            rest = [p for p in paths if not (changes(p) <= 1 or dh_mitm_single(p))]
             paths = few + rnd.sample(rest, min(len(rest), 240 if (cred_i and cred_r) else 50))
         n = 0
         for pi, p in enumerate(paths):
